@@ -122,17 +122,43 @@ def run_tlc(module, cfg, env=None, workers=None, timeout=3600, simulate=None, ex
     return r
 
 
+GENERATED_DEPS = ('XLLR.tla', 'MC_LR.tla')      # extend LRTabGen, which harness/lrtab.py writes from the tree under test
+
+
+def _sany(f, cwd):
+    p = subprocess.run(['java', '-cp', JAR, 'tla2sany.SANY', f], cwd=cwd, stdout=subprocess.PIPE, stderr=subprocess.STDOUT,
+                       universal_newlines=True)
+    if p.returncode != 0 or 'rror' in p.stdout.replace('errors: 0', ''):
+        if 'Semantic errors' in p.stdout or 'Parse Error' in p.stdout or 'Fatal errors' in p.stdout or p.returncode != 0:
+            return p.stdout[-2000:]
+    return None
+
+
 def sany_all():
     bad = []
     for f in sorted(os.listdir(SPEC)):
-        if f.endswith('.tla'):
-            p = subprocess.run(['java', '-cp', JAR, 'tla2sany.SANY', f], cwd=SPEC,
-                               stdout=subprocess.PIPE, stderr=subprocess.STDOUT,
-                               universal_newlines=True)
-            if p.returncode != 0 or 'rror' in p.stdout.replace('errors: 0', ''):
-                if 'Semantic errors' in p.stdout or 'Parse Error' in p.stdout or \
-                        'Fatal errors' in p.stdout or p.returncode != 0:
-                    bad.append((f, p.stdout[-2000:]))
+        if f.endswith('.tla') and f not in GENERATED_DEPS:
+            out = _sany(f, SPEC)
+            if out:
+                bad.append((f, out))
+    # the LR modules are checked next to the table module generated from the tree under test (as C04 runs them); when no
+    # tables can be taken out of the tree they are left to C04, which then skips its LR sub-check
+    try:
+        from . import lrtab
+        tabs = lrtab.extract(load_library())
+        d = os.path.join(scratch(), 'sany_lr')
+        os.makedirs(d, exist_ok=True)
+        for f in os.listdir(SPEC):
+            if f.endswith('.tla'):
+                shutil.copy(os.path.join(SPEC, f), d)
+        with open(os.path.join(d, 'LRTabGen.tla'), 'w') as fh:
+            fh.write(lrtab.module(tabs))
+    except Exception:
+        return bad
+    for f in GENERATED_DEPS:
+        out = _sany(f, d)
+        if out:
+            bad.append((f, out))
     return bad
 
 
